@@ -63,7 +63,13 @@ type Req struct {
 	Body    int    `json:"body"`     // declared (and sent) body length
 	Gzip    bool   `json:"gzip"`     // Accept-Encoding: gzip
 	ReqMark string `json:"req_mark"` // client-sent X-Verif-Req ("" = absent)
+	// Dress: request attributes no plugin's decision is documented to depend on.
+	// "" | upgrade-websocket | upgrade-h2c | expect-continue | put | patch | delete | auth-header | range
+	Dress string `json:"dress,omitempty"`
 }
+
+// Dresses lists the values of Req.Dress.
+var Dresses = []string{"", "upgrade-websocket", "upgrade-h2c", "expect-continue", "put", "patch", "delete", "auth-header", "range"}
 
 const (
 	hdrReq  = "X-Verif-Req"
@@ -332,6 +338,29 @@ func Run(h http.Handler, rq Req) Observation {
 	}
 	if rq.ReqMark != "" {
 		r.Header.Set(hdrReq, rq.ReqMark)
+	}
+	switch rq.Dress {
+	case "upgrade-websocket":
+		r.Header.Set("Connection", "Upgrade")
+		r.Header.Set("Upgrade", "websocket")
+		r.Header.Set("Sec-WebSocket-Version", "13")
+		r.Header.Set("Sec-WebSocket-Key", "dGhlIHNhbXBsZSBub25jZQ==")
+	case "upgrade-h2c":
+		r.Header.Set("Connection", "Upgrade, HTTP2-Settings")
+		r.Header.Set("Upgrade", "h2c")
+		r.Header.Set("HTTP2-Settings", "AAMAAABkAAQCAAAAAAIAAAAA")
+	case "expect-continue":
+		r.Header.Set("Expect", "100-continue")
+	case "put":
+		r.Method = "PUT"
+	case "patch":
+		r.Method = "PATCH"
+	case "delete":
+		r.Method = "DELETE"
+	case "auth-header":
+		r.Header.Set("Authorization", "Bearer "+rq.APIKey+"x")
+	case "range":
+		r.Header.Set("Range", "bytes=0-3")
 	}
 	tr := &Trace{}
 	r = r.WithContext(context.WithValue(r.Context(), traceKey{}, tr))
